@@ -5,14 +5,15 @@ C05 (completeness of the sentinel-terminated read).  `C05_derva_slice_s` says wh
 `derva_slice_s` / `deref_slice_s` looks like and when the answer is `Bounds`; a model that always
 answered `Bounds` would satisfy its first conjunct.  Here: the answer is DETERMINED by the bytes — the
 table ending at the first sentinel whenever that sentinel lies inside the readable bytes, `Bounds`
-otherwise, and the error of the address resolution when that fails.
+otherwise, and the error of the address resolution when that fails.  (The positive direction alone is
+also `C05_derva_slice_s_complete` in Thm/C05.lean; the proofs here do not depend on it.)
 -/
 namespace Pelite.Pe
 
 /-- Completeness: when the untyped slice at `a` is `s`, element `n` equals the sentinel, no earlier element
 does, and element `n` lies inside `s`, the read answers exactly the `n` elements before it.  Conversely,
 when none of the `s.len / size` whole elements inside `s` equals the sentinel the answer is `Bounds`. -/
-theorem C05_derva_slice_s_complete (v : View) (a : Addr) (size align sentinel : Nat) (hs : 1 ≤ size) (s : Ref)
+theorem C05_derva_slice_s_determined (v : View) (a : Addr) (size align sentinel : Nat) (hs : 1 ≤ size) (s : Ref)
     (hat : v.at a 0 align = .ok s) :
     (∀ n, (n + 1) * size ≤ s.len → leN v.b (s.off + n * size) size = sentinel →
         (∀ j, j < n → leN v.b (s.off + j * size) size ≠ sentinel) →
@@ -43,11 +44,11 @@ theorem C05_derva_slice_s_iff (v : View) (a : Addr) (size align sentinel : Nat) 
   constructor
   · exact (C05_derva_slice_s v a size align sentinel hs s hat).1 ref
   · rintro ⟨n, rfl, h1, h2, h3⟩
-    exact (C05_derva_slice_s_complete v a size align sentinel hs s hat).1 n h1 h2 h3
+    exact (C05_derva_slice_s_determined v a size align sentinel hs s hat).1 n h1 h2 h3
 
 /-- The answer is a function of the bytes: exactly one of "first sentinel at element `n` inside the slice"
 and "no sentinel among the whole elements of the slice" holds, so the two conjuncts of
-`C05_derva_slice_s_complete` cover every input; and when the address does not resolve, its error is the answer. -/
+`C05_derva_slice_s_determined` cover every input; and when the address does not resolve, its error is the answer. -/
 theorem C05_derva_slice_s_total (v : View) (a : Addr) (size align sentinel : Nat) (hs : 1 ≤ size) :
     (∀ e, v.at a 0 align = .err e → v.dervaSliceS a size align sentinel = .err e) ∧
     (∀ s, v.at a 0 align = .ok s →
@@ -58,7 +59,7 @@ theorem C05_derva_slice_s_total (v : View) (a : Addr) (size align sentinel : Nat
         v.dervaSliceS a size align sentinel = .err .bounds)) := by
   refine ⟨fun e he => dervaSliceS_at_err v a size align sentinel e he, ?_⟩
   intro s hat
-  obtain ⟨c1, c2⟩ := C05_derva_slice_s_complete v a size align sentinel hs s hat
+  obtain ⟨c1, c2⟩ := C05_derva_slice_s_determined v a size align sentinel hs s hat
   -- search for the first sentinel among the `s.len / size` whole elements
   have key : ∀ m, m ≤ s.len / size → (∀ j, j < m → leN v.b (s.off + j * size) size ≠ sentinel) →
       (∃ n, (n + 1) * size ≤ s.len ∧ leN v.b (s.off + n * size) size = sentinel ∧
